@@ -14,7 +14,7 @@ for spec in sys.argv[1:]:
         if r['file'].endswith(fn) and r['line'] == line and (kind is None or r['kind'] == kind) and r['status'] == 'survived':
             shutil.rmtree(wdir, ignore_errors=True)
             shutil.copytree('/repo', wdir, ignore=shutil.ignore_patterns('.git', '*.egg-info', '__pycache__', 'docs', 'images'))
-            src = open(os.path.join('/repo', r['file'])).read()
+            src = subprocess.run(['git', '-C', '/repo', 'show', '255d99f:' + r['file']], capture_output=True, text=True).stdout   # the survey ran on 255d99f
             open(os.path.join(wdir, r['file']), 'w').write(ast.unparse(mutate.apply(ast.parse(src), r['mid'], r['kind'])))
             out = subprocess.run(['/venv/bin/python', '-m', 'sa.checkall', wdir], cwd=VERIF, capture_output=True, text=True).stdout
             line_ = [l for l in out.splitlines() if l.startswith('{')]
